@@ -225,6 +225,39 @@ class Contracts:
             self.shared |= set(self.fn) - before
 
 
+def sig_return_arrow(sm, name):
+    """position of the `->` of the function's own return type in the (masked) signature text, and the position where the
+    return type ends (a `where` clause or the end of the signature); (-1, -1) if there is none.  Arrows inside generic
+    bounds (`F: Fn(&u8) -> bool`) and where clauses are not the function's."""
+    m = re.search(r'\bfn\s+%s\b' % re.escape(name), sm)
+    i = m.end() if m else 0
+    while i < len(sm) and sm[i].isspace():
+        i += 1
+    if i < len(sm) and sm[i] == '<':
+        depth = 0
+        while i < len(sm):
+            if sm[i] == '<':
+                depth += 1
+            elif sm[i] == '>' and sm[i - 1] != '-':
+                depth -= 1
+                if depth == 0:
+                    i += 1
+                    break
+            i += 1
+    lp = sm.find('(', i)
+    if lp < 0:
+        return -1, -1
+    rp = match_delim(sm, lp)
+    rest = sm[rp + 1:]
+    am = re.match(r'\s*->', rest)
+    if not am:
+        return -1, -1
+    arrow = rp + 1 + am.end() - 2
+    wm = re.search(r'\bwhere\b', sm[arrow:])
+    tail = arrow + wm.start() if wm else len(sm)
+    return arrow, tail
+
+
 def wrap_proof(ptext):
     """`let ghost x = e;` lines become ghost declarations of the enclosing block (visible to later
     proof blocks); everything else is wrapped in proof { }.  Both are ghost code only."""
@@ -622,15 +655,15 @@ class UnitBuild:
                 ctext = ctext + '\n    ensures false,'
         # name the return value
         ret = self.contracts.ret.get(q)
-        if ret is None and canary and re.search(r'->', mask(sig)):
+        if ret is None and canary and sig_return_arrow(mask(sig), it.name)[0] >= 0:
             ret = 'r__'
         if ret:
             sm = mask(sig)
-            arrow = sm.rfind('->')
+            arrow, tail = sig_return_arrow(sm, it.name)
             if arrow < 0:
                 raise ExtractError('@ret on a function without return type: ' + q)
-            ty = sig[arrow + 2:].strip()
-            sig = sig[:arrow] + '-> (%s: %s)' % (ret, ty) + '\n'
+            ty = sig[arrow + 2:tail].strip()
+            sig = sig[:arrow] + '-> (%s: %s)' % (ret, ty) + ('\n' + sig[tail:].rstrip() if sig[tail:].strip() else '') + '\n'
             self.count('S-retname', 1)
         if it.emit_name:
             sig = re.sub(r'\bfn\s+%s\b' % re.escape(it.name), 'fn %s' % it.emit_name, sig, count=1)
